@@ -39,6 +39,7 @@ from explorerscript.ssb_converting.ssb_special_ops import (
     OPS_THAT_END_CONTROL_FLOW,
     OP_DUMMY_END,
     OPS_CTX,
+    OP_JUMP,
 )
 from explorerscript.util import f, _
 
@@ -256,9 +257,12 @@ def strip_last_label(routine_ops: list[list[SsbOperation]]) -> list[list[SsbOper
     """
     Checks if the last opcode of a routine is a label, and if so
     removes it. if there are jumps to it, they are removed and replaced with an OP_DUMMY_END.
+    If the label is the target of anything but plain jumps of its own routine (branches, cases, calls or jumps
+    from other routines), it is kept and an OP_DUMMY_END is appended for it to point to instead.
     """
     logger.debug("Stripping last label...")
     returned_routine_ops = []
+    next_free_offset = max((op.offset for routine in routine_ops for op in routine), default=0) + 1
     for routine in routine_ops:
         if len(routine) > 0:
             jump_counts: dict[int, int] = {}
@@ -266,9 +270,13 @@ def strip_last_label(routine_ops: list[list[SsbOperation]]) -> list[list[SsbOper
                 if isinstance(op, SsbLabelJump) and op.label is not None:
                     jump_counts[op.label.id] = jump_counts.get(op.label.id, 0) + 1
 
-            while isinstance(routine[-1], SsbLabel):
+            while len(routine) > 0 and isinstance(routine[-1], SsbLabel):
                 indices_to_remove = set()
                 label = routine[-1]
+                if _label_needs_real_op(label, routine, routine_ops):
+                    routine.append(SsbOperation(next_free_offset, SsbOpCode(-1, OP_DUMMY_END), []))
+                    next_free_offset += 1
+                    break
                 # Remove the label
                 del routine[-1]
                 # Replace the jumps to it with returns
@@ -284,17 +292,45 @@ def strip_last_label(routine_ops: list[list[SsbOperation]]) -> list[list[SsbOper
                     else:
                         if isinstance(op, SsbLabel):
                             # If there is a label before, then something might jump here!
-                            if jump_counts.get(op.id, 0) > 1:
+                            if jump_counts.get(op.id, 0) > 0 or _is_jumped_to_from_other_routine(
+                                op, routine, routine_ops
+                            ):
                                 op_before_ends_control_flow = False
                         else:
                             op_before_ends_control_flow = does_op_end_control_flow(
                                 op, routine[op_i - 1] if op_i > 0 else None
                             )
                 routine = [x for i, x in enumerate(routine) if i not in indices_to_remove]
+            if len(routine) == 0:
+                # The routine only consisted of labels. It still has to do something (an empty routine is an alias).
+                routine.append(SsbOperation(next_free_offset, SsbOpCode(-1, OP_DUMMY_END), []))
+                next_free_offset += 1
             returned_routine_ops.append(routine)
         else:
             returned_routine_ops.append([])
     return returned_routine_ops
+
+
+def _is_jumped_to_from_other_routine(
+    label: SsbOperation, routine: list[SsbOperation], routine_ops: list[list[SsbOperation]]
+) -> bool:
+    return any(
+        isinstance(op, SsbLabelJump) and op.label == label
+        for other_routine in routine_ops
+        if other_routine is not routine
+        for op in other_routine
+    )
+
+
+def _label_needs_real_op(
+    label: SsbOperation, routine: list[SsbOperation], routine_ops: list[list[SsbOperation]]
+) -> bool:
+    """A label at the end of a routine can only be dropped, if nothing but plain jumps of this routine target it."""
+    if _is_jumped_to_from_other_routine(label, routine, routine_ops):
+        return True
+    return any(
+        isinstance(op, SsbLabelJump) and op.label == label and op.root.op_code.name != OP_JUMP for op in routine
+    )
 
 
 def does_op_end_control_flow(op: SsbOperation, previous_op: SsbOperation | None) -> bool:
